@@ -26,6 +26,9 @@ LIT_TEXTS = ['a', 'b', 'c', 'KEY']
 
 
 def lit(text):
+    # a literal is written as a URI component: "v=1", "seg=0", "32=kw" are typed components, everything else generic text
+    if '=' in text:
+        return rc.comp_from_uri(text)
     return rc.comp(8, text.encode())
 
 
@@ -610,6 +613,12 @@ def template_schemas(rng, with_signers):
                                (['L0', 'zz'], ['L1', a, b, a])]})
         out.append({'rules': [R('#seg', [P('_v'), L(a)], [[('_v', [L(b), P(p1)])]]), R(k1, [L('L1'), P(p1), ('ref', '#seg'), ('ref', '#seg'), ('ref', '#seg')]),
                               R('#pkt', [L('L0'), ('ref', '#seg'), P(p1), ('ref', '#seg')], None, [k1])]})
+        # a signer rule defined twice, one definition sorting before the signed rule and one after it (by their literals)
+        out.append({'rules': [R('#ed', [L(a), L('L1'), P(p1)]), R('#ed', [L(a), L('L3'), P(p1)]), R('#ed', [L(a), L('L5'), P(p1), L(b)]),
+                              R('#art', [L(a), L('L2'), P(p1), P('_')], None, ['#ed']), R('#art2', [L(a), L('L4'), P(p1)], None, ['#ed'])],
+                    'probes': [([a, 'L2', 'zz', c], [a, 'L1', 'zz']), ([a, 'L2', 'zz', c], [a, 'L3', 'zz']), ([a, 'L2', 'zz', c], [a, 'L5', 'zz', b]),
+                               ([a, 'L4', 'zz'], [a, 'L1', 'zz']), ([a, 'L4', 'zz'], [a, 'L3', 'zz']), ([a, 'L4', 'zz'], [a, 'L5', 'zz', b]),
+                               ([a, 'L2', 'zz', c], [a, 'L3', c]), ([a, 'L4', 'zz'], [a, 'L2', 'zz', c])]})
         # the key-name match backs out of a dead-end branch in which it had re-used a pattern bound by the packet name; the sibling
         # branch uses that pattern again further down
         out.append({'rules': [R('#pkt', [L('L0'), P(p1)], None, [k1, k2]), R(k1, [L('L1'), P(p1), L(a), L(b)]),
@@ -631,6 +640,12 @@ def template_schemas(rng, with_signers):
             R('#pkt', [L('L0'), P(p1), P(p2), P('_')], None, ['#k1']),
             R('#k1', [L('L1'), P(p3), L('KEY'), P('_')], [[(p3, [('fn', '$eq', [P(p1), P(p2)])])]], ['#k2']),
             R('#k2', [L('L2'), P(p3)], [[(p3, [('fn', '$eq', [P(p1)]), ('fn', '$eq_type', [L(a), P(p2)])])]])]})
+    # literals written in typed URI form (version, segment, keyword, explicit type number) in names, options and function arguments
+    if not with_signers:
+        out.append({'rules': [R('#rel', [L(a), L('v=1'), P(p1)]), R('#sg', [L(b), P(p1), P(p2)], [[(p1, [L('seg=0'), L('32=kw'), L(c)]), (p2, [('fn', '$eq', [L('v=2')])])]]),
+                              R('#gen', [L(a), L('8=v%3D1'), P(p1)])]})
+    else:
+        out.append({'rules': [R('#pkt', [L('L0'), L('v=1'), P(p1)], None, ['#k1']), R('#k1', [L('L1'), P(p1), P(p2)], [[(p2, [L('seg=0'), L('32=kw')])]])]})
     if not with_signers:
         # an option names a pattern that the rule itself never binds - the rules that embed it bind it in front of the reference
         out.append({'rules': [R('#inner', [P(p1), L(a)], [[(p1, [P(p2), L(b)])]]), R('#outer', [P(p2), ('ref', '#inner')]),
